@@ -15,6 +15,7 @@ import GeoProofs.Lemmas.C02QContains
 import GeoProofs.Lemmas.C02QWinding
 import GeoProofs.Lemmas.C02QHoles
 import GeoProofs.Lemmas.C02QPerturb
+import GeoProofs.Lemmas.WINDHoles
 
 namespace Geo.Proofs.C02
 open Geo
@@ -573,7 +574,7 @@ theorem lineContainsLine_degenerate (a b c : Pt) :
 in any direction (the face samples of the DE-9IM specification) is the winding number of the point
 (the half-open conventions differ per edge by a potential difference). First half of what H2 needs
 from validity; the second half ("the winding number jumps by one across an edge of a simple ring")
-is not proved. -/
+is `windingE_jump` below. -/
 theorem windingE_perturb (ring : List Pt) (hc : ring.head? = ring.getLast?) (m : Pt) (x1 y1 : Rat)
     (hoff : onAnySeg m (segs ring) = false) :
     windingE ⟨m.x, x1, m.y, y1⟩ ring = windingE (EPt.ofPt m) ring :=
@@ -608,5 +609,121 @@ theorem withinM_point_mls (ls : List (List Pt)) (c : Pt) :
 example : withinM (.point ⟨1, 0⟩) (.lineString [⟨0, 0⟩, ⟨2, 0⟩]) =
     Gen.isWithin (relateSpec (.point ⟨1, 0⟩) (.lineString [⟨0, 0⟩, ⟨2, 0⟩])) :=
   withinM_point_lineString_partial _ _ (by simp)
+
+/-! ### WIND: H2 discharged — the winding number jumps across an edge; valid polygons at every point -/
+
+/-- [T] the specification's winding number jumps by exactly one across an edge: `m` strictly inside
+the edge `(a, b)` of a closed ring and on no other edge occurrence of the ring; the face sample on
+the left of `a → b` (`m + δ·n`) winds once more than the one on the right (`m − δ·n`). -/
+theorem windingE_jump (ring : List Pt) (hc : ring.head? = ring.getLast?) (a b m : Pt)
+    (hone : (segs ring).filter (fun se => lineCoord se.1 se.2 m) = [(a, b)]) (hab : a ≠ b)
+    (hm : Geo.Proofs.Kernel.SegMem m a b) (hma : m ≠ a) (hmb : m ≠ b) :
+    windingE ⟨m.x, -(b.y - a.y), m.y, b.x - a.x⟩ ring =
+      windingE ⟨m.x, - -(b.y - a.y), m.y, -(b.x - a.x)⟩ ring + 1 :=
+  Geo.Proofs.WIND.windingE_jump ring hc hone hab hm hma hmb
+
+example : windingE ⟨2, -(0 - 0), 0, 4 - 0⟩ [⟨0, 0⟩, ⟨4, 0⟩, ⟨0, 4⟩, ⟨0, 0⟩] =
+    windingE ⟨2, - -(0 - 0), 0, -(4 - 0)⟩ [⟨0, 0⟩, ⟨4, 0⟩, ⟨0, 4⟩, ⟨0, 0⟩] + 1 :=
+  windingE_jump _ rfl ⟨0, 0⟩ ⟨4, 0⟩ ⟨2, 0⟩ (by decide +kernel) (by decide)
+    ⟨1 / 2, by norm_num, by norm_num, by norm_num, by norm_num⟩ (by decide) (by decide)
+
+/-- [T] a point of a simple ring that is not one of its coordinates lies on exactly one edge
+occurrence of the ring as written. -/
+theorem ringSimple_unique_edge (r : List Pt) (hs : ringSimple r = true) (a b m : Pt)
+    (hab : (a, b) ∈ segs r) (hm : Geo.Proofs.Kernel.SegMem m a b) (hnv : m ∉ r) :
+    (segs r).filter (fun se => lineCoord se.1 se.2 m) = [(a, b)] :=
+  Geo.Proofs.WIND.simple_unique_edge hs hab hm hnv
+
+example : (segs [⟨0, 0⟩, ⟨4, 0⟩, ⟨0, 4⟩, (⟨0, 0⟩ : Pt)]).filter (fun se => lineCoord se.1 se.2 ⟨2, 0⟩) =
+    [(⟨0, 0⟩, ⟨4, 0⟩)] :=
+  ringSimple_unique_edge _ (by decide +kernel) ⟨0, 0⟩ ⟨4, 0⟩ ⟨2, 0⟩ (by simp [segs])
+    ⟨1 / 2, by norm_num, by norm_num, by norm_num, by norm_num⟩ (by decide)
+
+/-- [T] two simple rings whose DE-9IM matrix (as hole-free polygons) has `II = F`: no point of one
+ring is strictly inside the other (both directions). -/
+theorem rings_apart_of_ii_empty (ra rb : List Pt) (hsa : ringSimple ra = true) (hsb : ringSimple rb = true)
+    (hii : (relateParts (polyOf ra) (polyOf rb)).ii = .empty) (p : Pt) :
+    (onAnySeg p (segs ra) = true → locateParts (polyOf rb) p ≠ .inside) ∧
+    (onAnySeg p (segs rb) = true → locateParts (polyOf ra) p ≠ .inside) :=
+  Geo.Proofs.WIND.ii_empty_rings_apart hsa hsb hii p
+
+example : locateParts (polyOf [⟨6, 6⟩, ⟨8, 6⟩, ⟨8, 8⟩, ⟨6, 8⟩, ⟨6, 6⟩]) ⟨4, 3⟩ ≠ .inside :=
+  (rings_apart_of_ii_empty [⟨2, 2⟩, ⟨4, 2⟩, ⟨4, 4⟩, ⟨2, 4⟩, ⟨2, 2⟩] [⟨6, 6⟩, ⟨8, 6⟩, ⟨8, 8⟩, ⟨6, 8⟩, ⟨6, 6⟩]
+    (by decide +kernel) (by decide +kernel) (by decide +kernel) ⟨4, 3⟩).1 (by decide +kernel)
+
+/-- [T] H2 of `coordPos_polygon_eq_locate_partial` from validity: in an OGC-valid polygon
+(`polyValid`: simple rings, `II = F` for every pair of different holes) a point strictly inside one
+hole for `coord_pos_relative_to_ring` is on no hole ring. -/
+theorem hole_interior_off_rings (poly : Poly) (hv : polyValid poly = true) (p : Pt) :
+    ∀ h ∈ poly.ints, ∀ h' ∈ poly.ints, ringPos p h = .inside → onAnySeg p (segs h') = false :=
+  Geo.Proofs.WIND.hole_inside_off_rings hv p
+
+example : onAnySeg ⟨3, 3⟩ (segs [⟨4, 4⟩, ⟨8, 6⟩, ⟨8, 8⟩, ⟨6, 8⟩, (⟨4, 4⟩ : Pt)]) = false :=
+  hole_interior_off_rings ⟨[⟨0, 0⟩, ⟨10, 0⟩, ⟨10, 10⟩, ⟨0, 10⟩, ⟨0, 0⟩],
+      [[⟨2, 2⟩, ⟨4, 2⟩, ⟨4, 4⟩, ⟨2, 4⟩, ⟨2, 2⟩], [⟨4, 4⟩, ⟨8, 6⟩, ⟨8, 8⟩, ⟨6, 8⟩, ⟨4, 4⟩]]⟩
+    (by decide +kernel) ⟨3, 3⟩ [⟨2, 2⟩, ⟨4, 2⟩, ⟨4, 4⟩, ⟨2, 4⟩, ⟨2, 2⟩] (by simp)
+    [⟨4, 4⟩, ⟨8, 6⟩, ⟨8, 8⟩, ⟨6, 8⟩, ⟨4, 4⟩] (by simp) (by decide +kernel)
+
+/-- [T] **Polygon, OGC-valid: `coordinate_position` is the specification's point location at every
+point** (closed rings, H1 and H2 are consequences of `polyValid`; no further hypothesis). -/
+theorem coordPos_polygon_eq_locate_valid (poly : Poly) (p : Pt) (hv : polyValid poly = true) :
+    coordPos (.polygon poly) p = locate (.polygon poly) p :=
+  coordPos_polygon_eq_locate_valid_partial poly p hv (hole_interior_off_rings poly hv p)
+
+example : coordPos (.polygon ⟨[⟨0, 0⟩, ⟨10, 0⟩, ⟨10, 10⟩, ⟨0, 10⟩, ⟨0, 0⟩],
+      [[⟨2, 2⟩, ⟨4, 2⟩, ⟨4, 4⟩, ⟨2, 4⟩, ⟨2, 2⟩], [⟨4, 4⟩, ⟨8, 6⟩, ⟨8, 8⟩, ⟨6, 8⟩, ⟨4, 4⟩]]⟩) ⟨4, 4⟩ =
+    locate (.polygon ⟨[⟨0, 0⟩, ⟨10, 0⟩, ⟨10, 10⟩, ⟨0, 10⟩, ⟨0, 0⟩],
+      [[⟨2, 2⟩, ⟨4, 2⟩, ⟨4, 4⟩, ⟨2, 4⟩, ⟨2, 2⟩], [⟨4, 4⟩, ⟨8, 6⟩, ⟨8, 8⟩, ⟨6, 8⟩, ⟨4, 4⟩]]⟩) ⟨4, 4⟩ :=
+  coordPos_polygon_eq_locate_valid _ _ (by decide +kernel)
+
+/-- [T] `Contains`, Polygon × Point for every OGC-valid polygon: the hand-written body is its own
+mask `T*****FF*` on the specification. -/
+theorem containsM_polygon_point_valid (poly : Poly) (p : Pt) (hv : polyValid poly = true) :
+    containsM (.polygon poly) (.point p) = Gen.isContains (relateSpec (.polygon poly) (.point p)) :=
+  containsM_polygon_point_valid_partial poly p hv (hole_interior_off_rings poly hv p)
+
+example : containsM (.polygon ⟨[⟨0, 0⟩, ⟨10, 0⟩, ⟨10, 10⟩, ⟨0, 10⟩, ⟨0, 0⟩],
+      [[⟨2, 2⟩, ⟨4, 2⟩, ⟨4, 4⟩, ⟨2, 4⟩, ⟨2, 2⟩], [⟨4, 4⟩, ⟨8, 6⟩, ⟨8, 8⟩, ⟨6, 8⟩, ⟨4, 4⟩]]⟩) (.point ⟨5, 5⟩) =
+    Gen.isContains (relateSpec (.polygon ⟨[⟨0, 0⟩, ⟨10, 0⟩, ⟨10, 10⟩, ⟨0, 10⟩, ⟨0, 0⟩],
+      [[⟨2, 2⟩, ⟨4, 2⟩, ⟨4, 4⟩, ⟨2, 4⟩, ⟨2, 2⟩], [⟨4, 4⟩, ⟨8, 6⟩, ⟨8, 8⟩, ⟨6, 8⟩, ⟨4, 4⟩]]⟩) (.point ⟨5, 5⟩)) :=
+  containsM_polygon_point_valid _ _ (by decide +kernel)
+
+/-- [T] `Intersects`, Polygon × Point for every OGC-valid polygon. -/
+theorem intersectsM_polygon_point_valid (poly : Poly) (p : Pt) (hv : polyValid poly = true) :
+    intersectsM (.polygon poly) (.point p) = Gen.isIntersects (relateSpec (.polygon poly) (.point p)) :=
+  intersectsM_polygon_point_valid_partial poly p hv (hole_interior_off_rings poly hv p)
+
+example : intersectsM (.polygon ⟨[⟨0, 0⟩, ⟨10, 0⟩, ⟨10, 10⟩, ⟨0, 10⟩, ⟨0, 0⟩],
+      [[⟨2, 2⟩, ⟨4, 2⟩, ⟨4, 4⟩, ⟨2, 4⟩, ⟨2, 2⟩], [⟨4, 4⟩, ⟨8, 6⟩, ⟨8, 8⟩, ⟨6, 8⟩, ⟨4, 4⟩]]⟩) (.point ⟨4, 4⟩) =
+    Gen.isIntersects (relateSpec (.polygon ⟨[⟨0, 0⟩, ⟨10, 0⟩, ⟨10, 10⟩, ⟨0, 10⟩, ⟨0, 0⟩],
+      [[⟨2, 2⟩, ⟨4, 2⟩, ⟨4, 4⟩, ⟨2, 4⟩, ⟨2, 2⟩], [⟨4, 4⟩, ⟨8, 6⟩, ⟨8, 8⟩, ⟨6, 8⟩, ⟨4, 4⟩]]⟩) (.point ⟨4, 4⟩)) :=
+  intersectsM_polygon_point_valid _ _ (by decide +kernel)
+
+/-- [T] `Point.is_within(Polygon)` for every OGC-valid polygon is its own mask `T*F**F***`. -/
+theorem withinM_point_polygon_valid (poly : Poly) (c : Pt) (hv : polyValid poly = true) :
+    withinM (.point c) (.polygon poly) = Gen.isWithin (relateSpec (.point c) (.polygon poly)) :=
+  withinM_point_of_contains _ _ (containsM_polygon_point_valid poly c hv)
+
+example : withinM (.point ⟨1, 1⟩) (.polygon ⟨[⟨0, 0⟩, ⟨10, 0⟩, ⟨10, 10⟩, ⟨0, 10⟩, ⟨0, 0⟩],
+      [[⟨2, 2⟩, ⟨4, 2⟩, ⟨4, 4⟩, ⟨2, 4⟩, ⟨2, 2⟩]]⟩) =
+    Gen.isWithin (relateSpec (.point ⟨1, 1⟩) (.polygon ⟨[⟨0, 0⟩, ⟨10, 0⟩, ⟨10, 10⟩, ⟨0, 10⟩, ⟨0, 0⟩],
+      [[⟨2, 2⟩, ⟨4, 2⟩, ⟨4, 4⟩, ⟨2, 4⟩, ⟨2, 2⟩]]⟩)) :=
+  withinM_point_polygon_valid _ _ (by decide +kernel)
+
+/-- [T] MultiPolygon with OGC-valid members: the members' positions are the specification's (no
+hypothesis on them any more); what remains is the member-against-member hypothesis (no point interior
+to one member and on the boundary of another). Full statement (`multiPolyValid ps` only): needs the
+ring argument of `rings_apart_of_ii_empty` for polygons with holes; not proved. -/
+theorem coordPos_multiPolygon_eq_locate_valid_partial (ps : List Poly) (p : Pt)
+    (hv : ∀ m ∈ ps, polyValid m = true)
+    (hd : ∀ m ∈ ps, ∀ m' ∈ ps, locate (.polygon m) p = .inside → locate (.polygon m') p ≠ .onBoundary) :
+    coordPos (.multiPolygon ps) p = locate (.multiPolygon ps) p :=
+  coordPos_multiPolygon_eq_locate_partial ps p (fun m hm => coordPos_polygon_eq_locate_valid m p (hv m hm)) hd
+
+example : coordPos (.multiPolygon [⟨[⟨0, 0⟩, ⟨4, 0⟩, ⟨4, 4⟩, ⟨0, 4⟩, ⟨0, 0⟩], []⟩,
+      ⟨[⟨4, 4⟩, ⟨8, 4⟩, ⟨8, 8⟩, ⟨4, 8⟩, ⟨4, 4⟩], []⟩]) ⟨4, 4⟩ =
+    locate (.multiPolygon [⟨[⟨0, 0⟩, ⟨4, 0⟩, ⟨4, 4⟩, ⟨0, 4⟩, ⟨0, 0⟩], []⟩,
+      ⟨[⟨4, 4⟩, ⟨8, 4⟩, ⟨8, 8⟩, ⟨4, 8⟩, ⟨4, 4⟩], []⟩]) ⟨4, 4⟩ :=
+  coordPos_multiPolygon_eq_locate_valid_partial _ _ (by decide +kernel) (by decide +kernel)
 
 end Geo.Proofs.C02
